@@ -206,7 +206,7 @@ package node
 //@   assumes[unfold] len(f.Iterators.Elems) == len(f.VarRefs.Elems) && len(f.Iterators.Elems) >= 1 && wfAST(f.Body)
 //@       && (forall k :: 0 <= k && k < len(f.Iterators.Elems) ==> exprOK(f.Iterators.Elems[k]))
 //@       && (forall k :: 0 <= k && k < len(f.VarRefs.Elems) ==> varRefOK(f.VarRefs.Elems[k]))
-//@   atcall f.Body.byteCode with (callee_fl flags.Pass) requires[outer_lo_inherited;C09,C02] fl.Data().InFor ==> callee_fl.Data().CtxLo == fl.Data().CtxLo
+//@   atcall f.Body.byteCode with (callee_fl bc.Pass) requires[outer_lo_inherited;C09,C02] fl.Data().InFor ==> callee_fl.Data().CtxLo == fl.Data().CtxLo
 //@   loop 0 invariant[iters] -1 <= rangeindex && rangeindex < len(f.Iterators.Elems) && emitInv(cr) && fresh(jmpAddrs) && old(len(*cr.CS)) <= ccontAddr && ccontAddr <= len(*cr.CS)
 //@       && (rangeindex >= 0 ==> ccontAddr < len(*cr.CS))
 //@       && (forall j :: 0 <= j && j < len(jmpAddrs) ==> old(len(*cr.CS)) <= jmpAddrs[j] && jmpAddrs[j] < len(*cr.CS))
